@@ -75,7 +75,8 @@ func ParseOne(reader *bufio.Reader) (*ChangelogEntry, error) {
 		if err != nil {
 			return nil, err
 		}
-		if line == "\n" {
+		if trim(line) == "" {
+			/* blank, or nothing but blanks */
 			continue
 		}
 		if !strings.HasPrefix(line, " ") {
